@@ -21,16 +21,16 @@ T = {
          "tie: differential run over all (i, j) for n <= 8 and sampled to 14; oracle evaluates the definitions assignment by assignment.",
          "Trust: as C01; mask tables are translated from the source on every run (T1).",
          "Lean 4 proof (bit-level, unbounded n) + regenerated constant tables + differential run", "5 (C03)"),
- "C04": ("Lean theorems for every function of n <= 8 variables (the property's range): P/N/NPN canonization never panics; the representative is the image of f under the "
+ "C04": ("Lean theorems for every n (P: every n; N, NPN: n <= 64; the property asks for n <= 8): P/N/NPN canonization never panics; the representative is the image of f under the "
          "returned certificate and is numerically <= the image of f under EVERY permutation / EVERY complementation mask of n+1 bits / every pair (full orbit minimum); "
          "hence two functions have the same representative exactly when one is the image of the other under the group, and a representative is its own representative. "
          "Proof: walk invariant (minimum over the visited group elements) + coverage: the permutations / masks before each step are pairwise distinct and there are n! / 2^n of them - "
-         "kernel-evaluated on the FLIPS/SWAPS tables regenerated from the source (n <= 6) and on the model of the runtime generators (n = 7, 8) - and a duplicate-free list of n! permutations "
+         "kernel-evaluated on the FLIPS/SWAPS tables regenerated from the source (n <= 6), proved for the run-time generators for every n (reflected Gray code; Steinhaus-Johnson-Trotter order, by induction along the generator's recursion) - and a duplicate-free list of n! permutations "
          "contains them all (one Mathlib module, List.permutations); tie: hooks exposing the sequences reported and actually walked + differential run on results; oracle: independent orbit enumeration.",
-         "Trust: as C01; Lemmas/Count.lean imports Mathlib.Data.List.Permutation (axioms still propext, Classical.choice, Quot.sound); the n = 8 generator fact costs about 7 minutes of kernel evaluation once.",
+         "Trust: as C01; Lemmas/Count.lean imports Mathlib.Data.List.Permutation (axioms still propext, Classical.choice, Quot.sound).",
          "Lean 4 proof (walk invariant + kernel-evaluated Hamiltonicity of the sequences in use + counting) + differential run + orbit oracle", "5 (C04)"),
  "C05": ("Lean theorems: the (perm, mask) rebuilt from best_ind is the group element reached at that index of the walk, so applying it to the input gives the returned table; "
-         "perm is a permutation, mask < 2^(n+1), P uses no mask, N the identity; for every n <= 8; tie: raw witnesses compared between model and code; oracle: independent certificate evaluator.",
+         "perm is a permutation, mask < 2^(n+1), P uses no mask, N the identity; for every n (N, NPN: n <= 64); tie: raw witnesses compared between model and code; oracle: independent certificate evaluator.",
          "Trust: as C04.", "Lean 4 proof (joint invariant of walk and replay) + differential run on raw witnesses + certificate oracle", "5 (C05)"),
  "C06": ("Lean theorems for every n, v: each of the eight helper predicates is equivalent to its cofactor definition over all assignments (both in-word and cross-word paths), "
          "and the priority chain equals the case list of the property; tie: differential run for all v, n <= 12; oracle: cofactors computed assignment by assignment.",
